@@ -628,6 +628,18 @@ struct Executor {
         free(tab);
     }
 
+    // the answer is a function of (k, n, N1, seed): it must not change during the life of a session
+    void requery_lastnull(SesCtx &sc, const char *when) {
+        if (sc.s->codec != C_LDPC || !sc.configured || sc.released || sc.lastnull < 0) return;
+        int ln = 0;
+        status(&sc, "ctrl", false);
+        int cst = ad_ctrl_lastnull(sc.h, &ln, sc.s->id);
+        status_done(); res.lib_calls++;
+        count("lastnull_requeried");
+        if (cst != 0) viol({"C15"}, "nullsym", std::string("flag-query-fails:") + when, "status " + std::to_string(cst), &sc);
+        else if (ln != sc.lastnull) viol({"C15"}, "nullsym", std::string("flag-changed-during-session:") + when, "was " + std::to_string(sc.lastnull) + " now " + std::to_string(ln), &sc);
+    }
+
     void check_lastnull_flag(SesCtx &sc, int ln) {
         FlowCtx &fc = *sc.fc;
         if (ln) {
@@ -866,6 +878,7 @@ struct Executor {
         observe_decoder(sc, "FINISH", -1, st, false);
         check_app_memory(sc, true);
         bool complete = sc.complete_seen;
+        requery_lastnull(sc, "after-finish");
         if (!rs && complete && st == 0) sc.finalised = false;   // ...but packets still in flight may reach a decoded block: late symbols stay legal
         const char *ps = twod ? "C16" : "C10";
         std::string pre = before ? ":pre=complete" : ":pre=incomplete";
@@ -910,6 +923,7 @@ struct Executor {
             free(tab);
             check_app_memory(sc, true);
         }
+        requery_lastnull(sc, "before-release");
         const char *stage = !sc.setp_done ? "created" : (!sc.configured ? "rejected-config" : (sc.s->role == R_ENC ? "encoder" : (sc.finish_called ? (sc.complete_seen ? "after-finish-ok" : "after-finish-fail") : (sc.complete_seen ? "complete" : (sc.avail_done ? "after-setavail" : (sc.distinct ? "mid-decoding" : "configured"))))));
         count(std::string("release_at:") + stage);
         status(&sc, "release", false);
@@ -1083,7 +1097,30 @@ struct Executor {
         res.log_hash = log.h; res.interleave_hash = inter.h;
     }
 
+    // C09, last clause: "whenever it returns OK the session then encodes and decodes correctly". For flows whose
+    // configuration was deliberately put on a boundary of the domain (flow.oti set), any other oracle's violation on one of
+    // their accepted sessions is also a C09 violation.
+    void accepted_but_misbehaves() {
+        std::vector<Violation> extra;
+        for (auto &v : res.viol) {
+            if (v.prop == "C09" || v.ses < 0) continue;
+            auto it = ses.find(v.ses);
+            if (it == ses.end() || !it->second.configured) continue;
+            const Flow *f = it->second.fc->f;
+            if (!f || f->oti.empty()) continue;
+            Violation w; w.prop = "C09"; w.cls = "valid"; w.op = v.op; w.ses = v.ses;
+            w.key = "accepted-configuration-misbehaves:" + f->oti + ":" + v.cls + ":codec=" + cn(it->second);
+            w.detail = v.prop + " " + v.key + " (" + v.detail + "); k=" + std::to_string(f->k) + " r=" + std::to_string(f->r) + " E=" + std::to_string(f->E) + " N1=" + std::to_string(f->N1) + " seed=" + std::to_string(f->pseed);
+            bool dup = false;
+            for (auto &o : res.viol) if (o.prop == w.prop && o.key == w.key) dup = true;
+            for (auto &o : extra) if (o.key == w.key) dup = true;
+            if (!dup) extra.push_back(w);
+        }
+        for (auto &w : extra) res.viol.push_back(w);
+    }
+
     void summarize() {
+        accepted_but_misbehaves();
         for (auto &kv : ses) {
             SesCtx &sc = kv.second;
             SessionSummary ss;
